@@ -181,8 +181,15 @@ impl Context {
     }
 
     pub fn replace_all(&self, s: &str) -> String {
+        self.try_replace_all(s).unwrap_or_else(|| s.to_string())
+    }
+
+    /// Substitutes macros until nothing changes. None when this does not come to an end
+    /// (a macro that refers to itself, directly or through others)
+    fn try_replace_all(&self, s: &str) -> Option<String> {
         let mut res = String::from(s);
         let mut changed;
+        let mut passes = 0;
         loop {
             changed = false;
             for (i, set) in self.regex_sets.iter().enumerate() {
@@ -199,8 +206,12 @@ impl Context {
             if !changed {
                 break;
             }
+            passes += 1;
+            if passes > 200 || res.len() > s.len() + (1 << 20) {
+                return None;
+            }
         }
-        res
+        Some(res)
     }
 
     fn skip_whitespace(&self, expr: &mut &str) {
@@ -600,7 +611,12 @@ pub fn process<I: BufRead, O: Write>(
                         });
                     }
                     let buf = &caps[3];
-                    let mut value = context.replace_all(buf);
+                    let mut value = context.try_replace_all(buf).ok_or_else(|| Error::Syntax {
+                        filename: filename.clone(),
+                        included_in: included_in.clone(),
+                        line,
+                        msg: "Macro expansion does not terminate".to_string(),
+                    })?;
                     if caps.get(2).is_none() {
                         context.define(mcro, value);
                     } else {
@@ -641,7 +657,12 @@ pub fn process<I: BufRead, O: Write>(
                     }
                 }
             } else {
-                let new_line = context.replace_all(&uncommented_buf);
+                let new_line = context.try_replace_all(&uncommented_buf).ok_or_else(|| Error::Syntax {
+                    filename: filename.clone(),
+                    included_in: included_in.clone(),
+                    line,
+                    msg: "Macro expansion does not terminate".to_string(),
+                })?;
                 let substr = new_line.trim();
                 if substr.starts_with('#') {
                     let mut parts = substr.split("//").next().unwrap().splitn(2, ' ');
